@@ -115,6 +115,8 @@ class AccfgGen:
             if p.get("relaunch") and r.random() < p["relaunch"]:
                 # launch the same configuration again, directly or nested in a region without any setup
                 st["after"] = {"kind": r.choice(["plain", "if", "for"]), "cond": r.choice(["%b0", "%b1", "%b2"]), "ub": r.choice(["%n0", "%n1", "%c2"]), "n": r.randint(1, 2)}
+                if st["after"]["kind"] != "plain" and r.random() < 0.3:
+                    st["nolaunch"] = True  # the configuration is only launched from inside the region, not next to its setup
             if p["gap"] and r.random() < 0.4:
                 for _ in range(r.randint(1, 2)):
                     g = r.choice(["pure", "opq", "call"])
@@ -298,10 +300,12 @@ def emit(ast, acc_names=None, vty="i32", decls=()) -> str:
             ltys = "".join(f"{vty}, " for _ in lv)
             pc = s.get("pc")
             attrs = f' {{m = {pc["m"]} : i32, mult_vals = array<i32: {", ".join(map(str, pc["mult"]))}>, shift_vals = array<i32: {", ".join(map(str, pc["shift"]))}>}}' if pc else ""
-            e(ind, f'{tk} = "accfg.launch"({largs}{st}) <{{param_names = [{lnames}], accelerator = "{an}"}}>{attrs} : ({ltys}!accfg.state<"{an}">) -> !accfg.token<"{an}">')
+            if not s.get("nolaunch"):
+                e(ind, f'{tk} = "accfg.launch"({largs}{st}) <{{param_names = [{lnames}], accelerator = "{an}"}}>{attrs} : ({ltys}!accfg.state<"{an}">) -> !accfg.token<"{an}">')
             for g in s.get("gap", []):
                 stmt(ind, g)
-            e(ind, f'"accfg.await"({tk}) : (!accfg.token<"{an}">) -> ()')
+            if not s.get("nolaunch"):
+                e(ind, f'"accfg.await"({tk}) : (!accfg.token<"{an}">) -> ()')
             af = s.get("after")
             if af:
                 def relaunch(i2):
